@@ -214,9 +214,9 @@ func analyseLocks(fn *ssa.Function) *lockAnalysis {
 // guardedFields: struct type → field → mutex field name; immutable: fields written only at
 // construction.
 var guardedFields = map[string]map[string]string{
-	plannerPkg + ".CachedPlanner":                     {"cache": "RWMutex", "cacheTimers": "RWMutex"},
-	modPath + "/executor.CachedPointDataExtractor":    {"cache": "RWMutex"},
-	modPath + ".subscriptionEntry":                    {"isClosed": "Mutex"},
+	plannerPkg + ".CachedPlanner":                  {"cache": "RWMutex", "cacheTimers": "RWMutex"},
+	modPath + "/executor.CachedPointDataExtractor": {"cache": "RWMutex"},
+	modPath + ".subscriptionEntry":                 {"isClosed": "Mutex"},
 }
 
 var immutableFields = map[string]map[string]string{
